@@ -133,9 +133,10 @@ static void setForm(QXmppDiscoveryIq *iq, bool hasFormType, const Txt &formType,
 }
 static void symFields(FieldT fields[], unsigned nfields)
 {
+    unsigned kinds = symCount(7, 3);   // bit i: field i is multi-valued (list-multi), else single-valued (text-single)
     for (unsigned i = 0; i < NFIELD; i++) {
         fields[i].key = symTxt();
-        fields[i].multi = vp_bool();
+        fields[i].multi = ((kinds >> i) & 1) != 0;
         fields[i].nval = symCount(2 + i, NVAL);
         for (unsigned k = 0; k < NVAL; k++) fields[i].val[k] = symTxt();
         // XEP-0004: var is unique within a form, FORM_TYPE is reserved (a 0..2 unit key over the alphabet never equals it)
